@@ -2,6 +2,7 @@ package checks
 
 import (
 	"fmt"
+	"sync"
 	"time"
 
 	"hermesverif/internal/core"
@@ -188,6 +189,10 @@ func checkC16(c *core.Ctx) {
 		c.Machineryf("%v", err)
 		return
 	}
+	var sysWG sync.WaitGroup
+	sysWG.Add(1)
+	go func() { defer sysWG.Done(); designSystem(c, "Rot") }()
+	defer sysWG.Wait()
 	if c.Replay == "" {
 		r := c.TLC(core.TLCOpts{Module: "MC_Rotation", Cfg: "Rotation_design.cfg", Kind: "design", Workers: 8, Timeout: 10 * time.Minute})
 		if !r.OK() {
@@ -196,7 +201,9 @@ func checkC16(c *core.Ctx) {
 	}
 	ps := runOrReplay(c, func() []*gen.Project { return rotationProjects(c, c.Pick(16, 160)) })
 	if len(ps) > 0 {
-		checkRunTraces(c, worker, ps, "Trace_Run_C16.cfg", "", autoHeader, func(tr *traceResult) string { return fmt.Sprint(tr.Case.P.Arms, " event ", tr.Event["zeit"], " rotation ", tr.Case.P.Rotation) })
+		checkRunTraces(c, worker, ps, "Trace_Run_C16.cfg", "", autoHeader, func(tr *traceResult) string {
+			return fmt.Sprint(tr.Case.P.Arms, " event ", tr.Event["zeit"], " rotation ", tr.Case.P.Rotation)
+		})
 	}
 	c.Distinct = c.TracesOK
 	c.Cover("rule", "one case per generated rotation (automation switch combination cycles through all 16 with the seed)")
